@@ -34,6 +34,7 @@ var c15NamesSQL = []string{
 	"heads/main", "heads/Main", "heads/ma_n", "heads/ma%n", "heads/maXn", "heads/mainX", "heads/m",
 	"remotes/a_b/x", "remotes/aXb/x", "remotes/A_B/x", "remotes/a%b/x", "remotes/a/x", "remotes/a/b/c", "remotes/a_b/y/z", "remotes/a_bc/x",
 	"remotes/remote/x", "remotes/s/x", "remotes/e/remotes", "remotes/remotes/s",
+	"remotes/caf\u00e9/x", "remotes/caf\u00e9/y", "remotes/\u539f\u70b9/main", "heads/\u00fcn\u00ef",
 	"tags/v1", "tags/V1", "tags/v_1",
 	"txs/" + "a1dbfcc4-f6da-454c-a783-f1b70d347baf" + "/m", "txs/" + "a1dbfcc4-f6da-454c-a783-f1b70d347baf" + "/n", "txs/" + "a1dbfcc4-f6da-454c-a783-f1b70d347bae" + "/m",
 	"refs_x/y", "refsXx/y",
@@ -47,10 +48,10 @@ var c15NamesFS = []string{
 	"tags/v1", "tags/v_1",
 }
 
-var c15Prefixes = []string{"", "heads/", "heads/ma", "heads/ma_", "heads/ma%", "heads/main", "heads/M", "remotes/a_b/", "remotes/a%b/", "remotes/a", "remotes/a/", "remotes/A", "tags/v", "tags/", "txs/", "refs_", "r", "x"}
+var c15Prefixes = []string{"", "heads/", "heads/ma", "heads/ma_", "heads/ma%", "heads/main", "heads/M", "remotes/a_b/", "remotes/a%b/", "remotes/a", "remotes/a/", "remotes/A", "tags/v", "tags/", "txs/", "refs_", "r", "x", "remotes/caf", "remotes/caf\u00e9/", "remotes/\u539f", "heads/\u00fc"}
 
 // remote names that are themselves substrings of "remotes/" or of one another are ordinary names
-var c15Remotes = []string{"a_b", "aXb", "A_B", "a%b", "a", "a_", "a/b", "a_bc", "remote", "s", "e", "remotes", "fresh"}
+var c15Remotes = []string{"a_b", "aXb", "A_B", "a%b", "a", "a_", "a/b", "a_bc", "remote", "s", "e", "remotes", "fresh", "caf\u00e9", "\u539f\u70b9"}
 
 type c15Log struct {
 	Old, New    string
